@@ -219,6 +219,14 @@ class DynEngine(Engine):
          [DYN, ['import', 'top', False, 'gin']], [DYN, ['bind', '', 'top.g', 'x', 1]]],
         [[DYN, ['import', 'pkga.util', True, None], ['import', 'pkgb.util', True, None], ['bind', '', 'util.f', 'x', 1]],
          [DYN, ['import', 'pkga.util', True, None], ['bind', '', 'util.f', 'y', 2]]],
+        # imports that took effect are recorded (_IMPORTS, observed after every call) although a later statement fails;
+        # a failing import statement itself is not; under skip_unknown the import of a missing module is dropped
+        [[DYN, a1, ['import', 'pkgb.util', False, 'u2'], ['bind', '', 'nosuch.fn', 'x', 1], ['import', 'top', False, None]],
+         [DYN, ['import', 'top', False, None], ['import', 'missing.mod', False, None], ['import', 'zeta', False, None]],
+         [DYN, a2, ['bind', '', 'u.f', 'x', 1]]],
+        {'pre': [], 'sk': [True, None], 'calls': [[DYN, ['import', 'missing.mod', False, None], a1, ['bind', '', 'pkga.util.nosuch', 'x', 1],
+                                                   ['bind', '', 'pkga.util.f', 'zz', [[], 'pkga.util.C']]],
+                                                  [a1, ['import', 'top', False, 'gin'], ['bind', '', 'nosuch', 'x', 1]]]},
         # a plain dotted import reaches a sibling submodule that was never imported by name (pkga.v2 through 'import pkga.v1.models')
         [[DYN, ['import', 'pkga.v1.models', False, None], ['bind', 's1', 'pkga.v2.models.build', 'x', 8],
           ['bind', '', 'pkga.v1.models.build', 'y', 2]]],
@@ -381,6 +389,7 @@ class DynEngine(Engine):
         else:
           gin.register(w.objs[p])
       obs = []
+      snaps = []     # gin.config._IMPORTS (a set of statements) after EVERY parse call, failed or not: sorted texts
       for stmts, sk in zip(case, sks):
         try:
           if sk is None:
@@ -390,6 +399,7 @@ class DynEngine(Engine):
           obs.append(None)
         except Exception as e:  # pylint: disable=broad-except
           obs.append(T('Err', type(e).__name__))
+        snaps.append(sorted(set(i.format() for i in cfg._IMPORTS)))  # pylint: disable=protected-access
       store, refs = [], []
       # entries in key order: the position of an entry in the store dict is not part of any property (a re-registered
       # class re-inserts the entries of its methods)
@@ -424,6 +434,7 @@ class DynEngine(Engine):
         obs.append([imps, heads])
       else:
         obs.append([])
+      obs.append(snaps)
       # ---- independent predicates
       # (1) the very object: resolve every successfully applied binding with the harness's own resolver
       spell = {}
@@ -453,7 +464,7 @@ class DynEngine(Engine):
           fails.append(('configured-object-not-in-universe', q))
       for path, obj in w.objs.items():
         sels = [k for k, v in reg.items() if v.wrapped is obj]
-        if len(sels) > 1 and not isinstance(obj, type):
+        if len(sels) > 1:        # functions, methods and classes alike (a class reached through a second spelling keeps its selector)
           fails.append(('one-object-two-configurables', '%s registered as %r' % (path, sels)))
       # (4) config_str re-parsed in a fresh gin configures the same objects with the same values
       ok_store = {}
@@ -463,7 +474,7 @@ class DynEngine(Engine):
         for p, v in d.items():
           ok_store[(s, id(reg[q].wrapped), p)] = v if isinstance(v, int) else ('ref', id(v.configurable.wrapped)) if hasattr(v, 'configurable') else ('placeholder', v.selector)
       any_dyn = any(st[0] == 'import' and st[1] == '__gin__.dynamic_registration' for stmts in case for st in stmts)
-      if ok_store and any_dyn and all_ok:     # after a FAILED parse the recorded imports are (by design) incomplete
+      if ok_store and any_dyn and all_ok:     # judged after successful parses only (a failed text is not a configuration to restore)
         g2 = C.fresh_gin()
         try:
           g2.parse_config(text)
